@@ -40,6 +40,7 @@ def shards(tier, seed):
     # the caching wrapper against the zone it wraps, at the first / last / a seeded instant of EVERY 32-day cache period 1800-2100 of every zone
     k = 6 if q else 12
     out += [{"name": f"zone-periods:{i}", "part": "periods", "i": i, "k": k, "probes": 3 if q else 6} for i in range(k)]
+    out += [{"name": "culture-state", "part": "culture", "rounds": 40 if q else 400}]
     return out
 
 
@@ -378,9 +379,80 @@ def run_periods(ctx, i, k, probes):
     ctx.sample({"kind": "periods", "zones": len(ids), "periods_per_zone": p_hi - p_lo, "probes_per_period": probes})
 
 
+def run_culture_state(ctx, rounds):
+    """The ambient culture is the one piece of state the text layer reads implicitly.  (a) It is per thread: a thread that never set it sees the
+    process default, whatever threads that have since exited had set (thread idents are recycled).  (b) Formatting through the current culture is a
+    function of the culture AS IT IS NOW: after a writable culture is customised, format() answers like a pattern created afresh for it."""
+    import threading
+    from pyoda_time import AnnualDate, Instant, LocalDate, LocalDateTime, LocalTime, Offset
+    from pyoda_time._compatibility._culture_info import CultureInfo
+    from pyoda_time._compatibility._culture_types import CultureTypes
+    from pyoda_time import text as T
+    rng = ctx.rng
+    names = [c.name for c in CultureInfo.get_cultures(CultureTypes.ALL_CULTURES) if c.name]
+    box = {}
+
+    def read_default(tag):
+        c = CultureInfo.current_culture
+        box[tag] = (c.name, T.LocalDatePattern.create_with_current_culture("D").format(LocalDate(2024, 3, 5)), format(LocalDateTime(2024, 3, 5, 9, 30, 15), "F"))
+    t = threading.Thread(target=read_default, args=("baseline",)); t.start(); t.join()
+    for r in range(rounds):
+        nm = rng.choice(names)
+
+        def setter():
+            CultureInfo.current_culture = CultureInfo(nm)
+            box["set"] = CultureInfo.current_culture.name
+        a = threading.Thread(target=setter); a.start(); a.join()
+        b = threading.Thread(target=read_default, args=("after",)); b.start(); b.join()
+        ctx.ev(); ctx.counters["thread_culture_rounds"] += 1; ctx.key(("thread-culture", a.ident == b.ident))
+        if box.get("after") != box["baseline"]:
+            ctx.V("C13:thread-culture-leaks", f"a new thread that never set a culture sees {box.get('after')} after an earlier (finished) thread had set {nm!r}; a thread that starts before any setting sees {box['baseline']} "
+                  f"(thread ident reused: {a.ident == b.ident})", {"kind": "culture", "culture": nm}, box.get("after"), box["baseline"])
+            break
+    saved = CultureInfo.current_culture
+    vals = {"LocalDate": (LocalDate(2024, 3, 5), T.LocalDatePattern, ["D", "d", "MMMM dd"]), "LocalTime": (LocalTime(9, 30, 15), T.LocalTimePattern, ["t", "T", "hh:mm tt"]),
+            "LocalDateTime": (LocalDateTime(2024, 3, 5, 9, 30, 15), T.LocalDateTimePattern, ["F", "f", "G", "g"]), "AnnualDate": (AnnualDate(3, 5), T.AnnualDatePattern, ["MMMM dd", "G"]),
+            "Instant": (Instant.from_utc(2024, 3, 5, 9, 30, 15), T.InstantPattern, ["g", "MMMM dd HH:mm"]), "Offset": (Offset.from_hours_and_minutes(5, 30), T.OffsetPattern, ["g", "G", "l"])}
+    try:
+        for r in range(max(6, rounds // 4)):
+            nm = rng.choice(names + ["en-US", "fr-FR"])
+            for tname, (v, P, specs) in vals.items():
+                for spec in specs:
+                    try:
+                        culture = CultureInfo(nm).clone()
+                    except Exception as e:  # noqa: BLE001
+                        ctx.exc(e); continue
+                    if getattr(culture, "is_read_only", False): continue
+                    CultureInfo.current_culture = culture
+                    steps = [lambda: None,
+                             lambda: setattr(culture.date_time_format, "long_date_pattern", "yyyy MMMM dd"),
+                             lambda: setattr(culture.date_time_format, "am_designator", "ante"),
+                             lambda: (lambda m: (m.__setitem__(2, "Ventose"), setattr(culture.date_time_format, "month_names", m), setattr(culture.date_time_format, "month_genitive_names", m)))(list(culture.date_time_format.month_names)),
+                             lambda: setattr(culture.date_time_format, "short_time_pattern", "HH'h'mm")]
+                    rng.shuffle(steps)
+                    for si, step in enumerate(steps):       # the same question again and again while its culture is being customised
+                        try:
+                            step()
+                        except Exception as e:  # noqa: BLE001  (this culture does not allow that customisation)
+                            ctx.exc(e); continue
+                        ctx.ev(); ctx.counters["mutable_culture_formats"] += 1; ctx.key(("mutable-culture", tname, spec, si))
+                        try:
+                            got = format(v, spec); want = P.create(spec, culture).format(v)
+                        except Exception as e:  # noqa: BLE001
+                            ctx.exc(e); continue
+                        if got != want:
+                            ctx.V(f"C13:format-ignores-culture-change:{tname}", f"format({tname}, {spec!r}) under the writable current culture {nm!r} gives {got!r} after customisation step {si}; a pattern created afresh for the culture as it is now gives {want!r}",
+                                  {"kind": "culture", "culture": nm, "spec": spec}, got, want)
+    finally:
+        CultureInfo.current_culture = saved
+    ctx.sample({"kind": "culture-state", "rounds": rounds})
+
+
 def run(ctx, shard):
     for k in REQUIRED["any"] + ["yield_callbacks", "distinct_interleavings"]:
         ctx.counters.setdefault(k, 0)
+    if shard["part"] == "culture":
+        run_culture_state(ctx, shard["rounds"]); return
     if shard["part"] == "periods":
         run_periods(ctx, shard["i"], shard["k"], shard["probes"]); return
     if shard["part"] == "history":
